@@ -18,7 +18,8 @@ PROPERTY = "C17"
 LEVEL = "exploration"
 
 POSTFIXES = ["a", "a_1", "1", "_", "b", "ol", "en", "x_y_z", "A", "a1", "meta", "fractions",
-             "0", "00", "step_10", "a_", "_a", "Z9"]
+             "0", "00", "step_10", "a_", "_a", "Z9", "123", "1e5", "orientations", "b_a",
+             "p" * 120]
 
 
 # --------------------------------------------------------------------------- generation
@@ -79,7 +80,8 @@ def generate(seed, tier="quick"):
     # always end with loading everything back in a seeded order
     ops.append({"op": "load_all", "via": rng.choice(["from_file", "load", "both"]),
                 "order_seed": rng.randrange(1 << 30)})
-    return {"property": PROPERTY, "engine": "store", "seed": seed, "minerals": minerals, "ops": ops}
+    return {"property": PROPERTY, "engine": "store", "seed": seed, "minerals": minerals, "ops": ops,
+            "relative_paths": rng.random() < 0.3}
 
 
 # --------------------------------------------------------------------------- execution
@@ -150,6 +152,10 @@ class Store:
         self.pydrex = boot()
         self.scn = scn
         self.root = tempfile.mkdtemp(prefix="pdsim_c17_")
+        self.relative = bool(scn.get("relative_paths"))
+        self._cwd = os.getcwd()
+        if self.relative:
+            os.chdir(self.root)  # file names are then handed to PyDRex relative to the cwd
         self.minerals = [build_mineral(self.pydrex, s) for s in scn["minerals"]]
         self.model = {}      # (file, postfix|None) -> model dict   (judged keys only)
         self.kind = {}       # file -> "whole" | "postfix" | "dirty"
@@ -158,6 +164,8 @@ class Store:
         self.log = []
 
     def close(self):
+        if self.relative:
+            os.chdir(self._cwd)
         shutil.rmtree(self.root, ignore_errors=True)
 
     def v(self, clause, i, detail):
@@ -168,7 +176,7 @@ class Store:
         self.c[k] = self.c.get(k, 0) + n
 
     def path(self, file):
-        return os.path.join(self.root, file)
+        return file if self.relative else os.path.join(self.root, file)
 
     # ---- comparisons
     def compare(self, got, key, i, via, clause="roundtrip"):
@@ -407,7 +415,7 @@ def execute(scn):
         "sig": sig,
         "nontrivial": c.get("archives_reaching_>=2_postfixes", 0) > 0 or
                       c.get("rejected_op_hit_existing_archive", 0) > 0,
-        "states": sorted({f"pf{min(c.get('saves_postfix', 0), 8)}|wh{min(c.get('saves_whole', 0), 3)}|"
+        "states": sorted({f"rel{int(bool(scn.get('relative_paths')))}|pf{min(c.get('saves_postfix', 0), 8)}|wh{min(c.get('saves_whole', 0), 3)}|"
                           f"rej{min(c.get('rejected_ops', 0), 4)}|rs{min(c.get('restarts', 0), 2)}"}),
     }
     return {"verdicts": st.verdicts, "digest": h.hexdigest(), "stats": stats}
